@@ -37,7 +37,14 @@ def ft_sh_phase_screen(r0, N, delta, L0, l0, FFT=None, seed=None):
     Returns:
         ndarray: numpy array representing phase screen in radians
     """
-    N = int(N)      # (as in ft_phase_screen)
+    # (Python numbers, as in ft_phase_screen: N * delta and 3**p * D wrap around in
+    # a narrow NumPy integer type, and float32 parameters changed the sub-harmonic
+    # part of the screen in the 7th digit while the FFT part stayed the same)
+    N = int(N)
+    delta = float(delta)
+    r0 = float(r0)
+    L0 = float(L0)
+    l0 = float(l0)
 
     R = numpy.random.default_rng(seed)
 
